@@ -8,7 +8,7 @@ import importlib
 import z3
 
 from . import decl, heapops, ops, source, spec
-from .core import (BOOL, FN, INT, NONE, NONEV, NUM, NUMTYPE, OTHER, STR, TYPEOBJ, ExcVal, FuncVal, StaleContract, State,
+from .core import (esort, epack, eunpack, BOOL, FN, INT, NONE, NONEV, NUM, NUMTYPE, OTHER, STR, TYPEOBJ, ExcVal, FuncVal, StaleContract, State,
                    TBool, TDict, TInt, TList, TMap, TNone, TNum, TOpaque, TOpt, TRef, TRefLike, TSeq, TSet, TSetV,
                    TStr, TTuple, TUnion, Unsupported, Val, boolv, coerce, compatible, fresh_name, is_numeric, num,
                    strv, to_real, val_eq, val_ite)
@@ -251,7 +251,22 @@ class Exec:
         yield Outcome("normal", st)
 
     def st_ImportFrom(self, s, st):
+        # `from .x import y` inside a function: bind the names to the real objects
+        try:
+            pkg = self.module if s.level == 0 else ".".join(self.module.split(".")[: len(self.module.split(".")) - s.level + (0 if not self._is_pkg(self.module) else 1)])
+            modname = (pkg + "." + s.module if s.module else pkg) if s.level else s.module
+            mod = importlib.import_module(modname)
+            for a in s.names:
+                if hasattr(mod, a.name):
+                    st.env[a.asname or a.name] = self.wrap_pyobj(getattr(mod, a.name), a.name)
+        except Exception:  # noqa: BLE001
+            pass  # unresolved names surface as `unknown name` (fail-closed) when used
         yield Outcome("normal", st)
+
+    @staticmethod
+    def _is_pkg(modname):
+        m = importlib.import_module(modname)
+        return hasattr(m, "__path__")
 
     def st_Nonlocal(self, s, st):
         yield Outcome("normal", st)
@@ -275,9 +290,9 @@ class Exec:
             heapops.dict_set_contents(st.heap, out, z3.K(t.ksort(), z3.BoolVal(False)),
                                       [z3.K(t.ksort(), d) for d in t.v.default_terms()])
         elif isinstance(t, TList):
-            heapops.list_write(st.heap, out, z3.Empty(z3.SeqSort(t.e.sort())))
+            heapops.list_write(st.heap, out, z3.Empty(z3.SeqSort(esort(t.e))))
         else:
-            heapops.set_write(st.heap, out, z3.K(t.e.sort(), z3.BoolVal(False)))
+            heapops.set_write(st.heap, out, z3.K(esort(t.e), z3.BoolVal(False)))
         st.env[target.id] = out
         return True
 
@@ -350,14 +365,16 @@ class Exec:
         if isinstance(v, Val) and isinstance(v.t, TSeq):
             self.oblige(st, f"unpack-len[{ast.unparse(node)}]", z3.Length(v.v) == n)
             st.assume(z3.Length(v.v) == n)
-            return [v.t.e.make([v.v[i]]) for i in range(n)]
+            return [eunpack(v.v[i], v.t.e) for i in range(n)]
         raise Unsupported(f"unpack of {getattr(v, 't', v)} at line {node.lineno}")
 
     def store_subscript(self, base, idx, v, st, node):
         base = self.as_container(base, st)
         t = base.t
         if isinstance(t, TDict):
-            idx = self.to_key(idx, t.k, st)
+            idx = self.key_or_violation(idx, t, st, node)
+            if idx is None:
+                return
             heapops.dict_store(st.heap, base, idx, v)
             yield Outcome("normal", st)
         elif isinstance(t, TList):
@@ -366,7 +383,7 @@ class Exec:
             i = spec.norm_index(idx.v, n)
             ok = z3.And(i >= 0, i < n)
             for st1 in self.guard_exc(st, ok, "IndexError", node):
-                new = z3.Concat(z3.SubSeq(seq, 0, i), z3.Unit(coerce(v, t.e).v), z3.SubSeq(seq, i + 1, n - i - 1))
+                new = z3.Concat(z3.SubSeq(seq, 0, i), z3.Unit(epack(coerce(v, t.e))), z3.SubSeq(seq, i + 1, n - i - 1))
                 heapops.list_write(st1.heap, base, new)
                 yield Outcome("normal", st1)
         else:
@@ -389,6 +406,20 @@ class Exec:
         if isinstance(kt, TOpt) and isinstance(idx, Val):
             return coerce(idx, kt)
         raise Unsupported(f"dict key of type {getattr(idx, 't', idx)} for key type {kt}")
+
+    def key_or_violation(self, idx, t, st, node):
+        """Key of a declared container: a key of another *modelled* type breaks the container's type invariant
+        (the declared key type is part of the data-structure contract) -- an obligation that fails, not an
+        unsupported construct."""
+        try:
+            return self.to_key(idx, t.k, st)
+        except Unsupported:
+            if isinstance(idx, Val) and not isinstance(idx.t, TOpaque):
+                self.oblige(st, f"type-invariant.key[{_short(node)}]", z3.BoolVal(False),
+                            info={"why": f"key of type {idx.t} used with a container declared {t}", "strict": True})
+                st.assume(z3.BoolVal(False))
+                return None
+            raise
 
     def as_container(self, base, st):
         """Objects of mapping-delegate classes act as their dict for reads."""
@@ -783,6 +814,11 @@ class Exec:
             if key is None:
                 raise Unsupported(f"{t.cls}.{attr}: no field / contract (line {node.lineno})")
             if self.is_property(key):
+                con = decl.CONTRACTS[key]
+                pexpr = spec._pure_property(t.cls, attr) if con.pure and not con.requires and not con.raises else None
+                if pexpr is not None:
+                    yield st, spec.sv(pexpr, self.scope(st, {"self": base}))
+                    return
                 yield from self.call_contract(key, [base], {}, st, node)
                 return
             yield st, FuncVal("method", attr, recv=base, extra=key)
@@ -876,7 +912,9 @@ class Exec:
                 raise Unsupported(f"subscript on {base.t}")
         t = base.t
         if isinstance(t, TDict):
-            idx = self.to_key(idx, t.k, st)
+            idx = self.key_or_violation(idx, t, st, node)
+            if idx is None:
+                return
             if t.udict:
                 yield st, heapops.dict_read(st.heap, base, idx)
                 return
@@ -888,7 +926,7 @@ class Exec:
             n = z3.Length(seq)
             i = spec.norm_index(idx.v, n)
             for st1 in self.guard_exc(st, z3.And(i >= 0, i < n), "IndexError", node):
-                yield st1, t.e.make([seq[i]])
+                yield st1, eunpack(seq[i], t.e)
             return
         if isinstance(t, TStr):
             n = z3.Length(base.v)
@@ -939,7 +977,7 @@ class Exec:
                     raise Unsupported("heterogeneous list literal")
             r = st1.new_ref("list")
             out = Val(TList(et), r)
-            seq = z3.Empty(z3.SeqSort(et.sort()))
+            seq = z3.Empty(z3.SeqSort(esort(et)))
             for it in items:
                 seq = z3.Concat(seq, z3.Unit(coerce(it, et).v))
             heapops.list_write(st1.heap, out, seq)
@@ -980,9 +1018,9 @@ class Exec:
             heapops.dict_set_contents(st.heap, out, z3.K(t.ksort(), z3.BoolVal(False)),
                                       [z3.K(t.ksort(), d) for d in t.v.default_terms()])
         elif isinstance(t, TList):
-            heapops.list_write(st.heap, out, z3.Empty(z3.SeqSort(t.e.sort())))
+            heapops.list_write(st.heap, out, z3.Empty(z3.SeqSort(esort(t.e))))
         elif isinstance(t, TSet):
-            heapops.set_write(st.heap, out, z3.K(t.e.sort(), z3.BoolVal(False)))
+            heapops.set_write(st.heap, out, z3.K(esort(t.e), z3.BoolVal(False)))
         else:
             raise Unsupported(f"empty literal stored as {t}")
         return out
